@@ -4,6 +4,8 @@ use std::io::{BufRead, Write};
 use std::panic::{catch_unwind, AssertUnwindSafe};
 
 mod fam_varint;
+mod fam_classic;
+pub mod util;
 
 pub fn unhex(s: &str) -> Vec<u8> {
     if s == "-" { return vec![]; }
@@ -27,6 +29,7 @@ fn main() {
         let toks: Vec<&str> = line.split_whitespace().collect();
         let r = catch_unwind(AssertUnwindSafe(|| match fam {
             "varint" => fam_varint::run(&toks),
+            "classic" => fam_classic::run(&toks),
             _ => panic!("unknown family {fam}"),
         }));
         match r {
